@@ -118,6 +118,7 @@ class Ctx(object):
         self.excluded_known = Counter()
         self.violations = []     # [{"tag","spec","message"}] smallest per tag
         self.capped = False
+        self.stop_requested = False
         self._lcg = (seed * 2654435761 + 12345) & 0xFFFFFFFF
 
     # deterministic reservoir sampling (no RNG of the library under test)
@@ -202,6 +203,67 @@ def run_body(mod, spec, ctx):
             json.dumps(spec, default=str)[:2000], traceback.format_exc()))
 
 
+def guarded_step(ctx, spec_fn, fn):
+    """Run one step of a state machine under the same rules as run_body."""
+    if ctx.deadline is not None and time.time() > ctx.deadline:
+        ctx.capped = True
+        ctx.stop_requested = True
+        raise StopShard()
+    if ctx.violations:
+        ctx._shrink_calls = getattr(ctx, "_shrink_calls", 0) + 1
+        if not hasattr(ctx, "_shrink_t0"):
+            ctx._shrink_t0 = time.time()
+        if ctx._shrink_calls > 20000 or time.time() - ctx._shrink_t0 > 30:
+            ctx.stop_requested = True
+            raise StopShard()
+    try:
+        return fn()
+    except Violation as v:
+        if v.tag in ctx.known:
+            ctx.excluded_known[v.tag] += 1
+            return None
+        spec = spec_fn()
+        v.spec = spec
+        ctx.record_violation(v, spec)
+        raise
+    except (HarnessError, StopShard, Reject):
+        raise
+    except BaseException as e:
+        import hypothesis.errors
+        if isinstance(e, (hypothesis.errors.UnsatisfiedAssumption,
+                          hypothesis.errors.StopTest,
+                          hypothesis.errors.Frozen)):
+            raise
+        raise HarnessError("harness error in state machine step\n%s" % traceback.format_exc())
+
+
+def _run_machine(mod, ctx, payload):
+    import hypothesis
+    from hypothesis import HealthCheck, Phase, settings
+    from hypothesis.stateful import run_state_machine_as_test
+    name, shard, examples, steps = payload
+    machine = mod.make_machine(ctx, name)
+    idx = sorted(mod.machines(ctx.tier)).index(name)
+    machine = hypothesis.seed(ctx.seed * 100003 + shard * 101 + 50 + idx)(machine)
+    st_ = settings(
+        max_examples=examples, stateful_step_count=steps, database=None,
+        deadline=None, derandomize=False, report_multiple_bugs=False,
+        print_blob=False, suppress_health_check=list(HealthCheck),
+        phases=[Phase.generate, Phase.shrink],
+    )
+    try:
+        run_state_machine_as_test(machine, settings=st_)
+    except Violation:
+        pass
+    except StopShard:
+        pass
+    except hypothesis.errors.Flaky:
+        # aborting a run with StopShard leaves Hypothesis' data tree with an
+        # unfinished test case, which it reports as flaky; only tolerated then
+        if not ctx.stop_requested:
+            raise
+
+
 # --------------------------------------------------------------------------
 # tasks (run inside pool workers)
 
@@ -230,6 +292,9 @@ def _task(args):
                 ctx.capped = True
         elif kind == "gen":
             _run_generated(mod, ctx, payload)
+        elif kind == "sm":
+            _run_machine(mod, ctx, payload)
+            kind = "gen"
         res = ctx.result()
         res["kind"] = kind
         res["payload"] = payload if kind == "gen" else None
@@ -252,6 +317,7 @@ def _run_generated(mod, ctx, payload):
     def body(spec):
         if ctx.deadline is not None and time.time() > ctx.deadline:
             ctx.capped = True
+            ctx.stop_requested = True
             raise StopShard()
         if ctx.violations:
             # shrinking: cap it (seconds, not Hypothesis' 5 minutes)
@@ -259,6 +325,7 @@ def _run_generated(mod, ctx, payload):
                 shrink_started[0] = time.time()
             shrink_calls[0] += 1
             if shrink_calls[0] > 3000 or time.time() - shrink_started[0] > 45:
+                ctx.stop_requested = True
                 raise StopShard()
         try:
             run_body(mod, spec, ctx)
@@ -280,6 +347,9 @@ def _run_generated(mod, ctx, payload):
         pass
     except StopShard:
         pass
+    except hypothesis.errors.Flaky:
+        if not ctx.stop_requested:
+            raise
     except hypothesis.errors.Unsatisfiable:
         ctx.hist["unsatisfiable:" + name] += 1
 
@@ -436,7 +506,14 @@ def main(argv=None):
     if "exh" in only and hasattr(mod, "exhaustive_tasks"):
         for payload in mod.exhaustive_tasks(args.tier):
             tasks.append(("exh", prop_id, args.tier, seed, payload, deadline))
-    if "gen" in only:
+    if "gen" in only and hasattr(mod, "machines"):
+        machines = mod.machines(args.tier)
+        for name in sorted(machines):
+            examples, steps, shards = machines[name]
+            for shard in range(shards):
+                tasks.append(("sm", prop_id, args.tier, seed,
+                              (name, shard, examples, steps), deadline))
+    if "gen" in only and hasattr(mod, "strategies"):
         strategies = mod.strategies(args.tier)
         nshards = max(1, min(args.jobs, 16))
         for name in sorted(strategies):
